@@ -1,6 +1,6 @@
 (* Extract.v — extraction of the executable models to OCaml (ExtrOcamlBasic only).
    Run from /verif/ocaml: coqc -Q ../coq Rux ../coq/Extract.v *)
-From Rux Require Import Base Consts Cache Str Norm Writer Chain Dispatch Reg Rx RxParse Pattern Pat Table PatTable Gates Rest Build Static Bind Render.
+From Rux Require Import Base Consts Cache Str Norm Writer Chain Dispatch Reg Rx RxParse Pattern Pat Table PatTable Gates Rest Build Static Bind Render Sys.
 Require Import ExtrOcamlBasic.
 Extraction "model.ml"
   str_eqb Z.of_nat Z.to_nat
@@ -14,5 +14,6 @@ Extraction "model.ml"
   basic_auth auth_prog method_override wrap_loop wrap_spec
   all_actions action_name action_methods action_path action_id route_name resource_stmts resource_guard documented_path nf
   build_path var_texts split_args placeholder subst_items map_set names_set
+  sys_build sys_serve sys_target
   clean_rooted clean_stack dir_open strip_prefix ext_filter
   auto_source doc_source has_body ctx_blob ctx_no_content ctx_http_error respond render_blob render_json render_jsonp render_xml rsp_init auto_pick supported ct_text ct_html ct_json ct_jsonp ct_xml.
